@@ -248,7 +248,59 @@ def replay_search():
                     continue
                 if not (abs(float(root) - a) <= tol * (1 + 1e-6) + 1e-12 * abs(a)):
                     bad.append(f"{nm} root={a} tol={tol}: returned {float(root)} (error {abs(float(root) - a):.3g})")
+    bad += _replay_float32()
     return bool(bad), "; ".join(bad[:4]) or "no discrepancy on the replay family"
+
+
+_F32_CODE = r"""
+import sys, json
+import numpy as np
+import jax
+import jax.numpy as jnp
+from flowjax.bisection_search import _bisection_search
+assert not jax.config.jax_enable_x64
+fns = {
+    "steep": lambda a: (lambda x: 50.0 * (x - a)), "linear": lambda a: (lambda x: (x - a)),
+    "cubic": lambda a: (lambda x: (x - a) ** 3 + 0.1 * (x - a)), "sinh": lambda a: (lambda x: jnp.sinh(0.5 * (x - a))),
+    "kinked": lambda a: (lambda x: jnp.where(x < a, 0.2 * (x - a), 3.0 * (x - a))),
+}
+bad = []
+for nm, mk in fns.items():
+    for a in (1.2345e-3, -0.7071, 0.05, 3.3, -9.0):
+        for tol in (1e-4, 1e-6, 1e-7):
+            a32 = np.float32(a)
+            try:
+                root, ad, it = _bisection_search(mk(a32), lower=jnp.array(-10.0, jnp.float32), upper=jnp.array(10.0, jnp.float32), tol=tol, max_iter=200)
+            except Exception as e:
+                bad.append(f"float32 {nm} root={a}: raised {type(e).__name__}")
+                continue
+            ulp = float(np.spacing(np.float32(abs(a))))
+            lim = max(tol, 4 * ulp) * 1.001
+            err = abs(float(root) - float(a32))
+            if not err <= lim:
+                bad.append(f"float32 {nm} root={a} tol={tol} on [-10, 10]: returned {float(root)!r} (error {err:.3g} > max(tol, 4 ulp(root)) = {lim:.3g})")
+print("RESULT" + json.dumps(bad[:6]))
+"""
+
+
+def _replay_float32():
+    """single precision (the library default), fine tolerances on a wide bracket: the root must be resolved to the requested tolerance wherever
+    the floats around the ROOT are dense enough (large bracket ends do not excuse a coarse answer).  Runs in a subprocess without x64."""
+    import json
+    import os
+    import subprocess
+    import sys
+    env = dict(os.environ)
+    env.pop("JAX_ENABLE_X64", None)
+    env["JAX_PLATFORMS"] = "cpu"
+    try:
+        r = subprocess.run([sys.executable, "-c", _F32_CODE], env=env, capture_output=True, text=True, timeout=600)
+    except Exception as e:  # noqa
+        return []
+    for line in r.stdout.splitlines():
+        if line.startswith("RESULT"):
+            return json.loads(line[6:])
+    return []
 
 
 def ob_bounded(max_iter=6):
